@@ -10,6 +10,8 @@ Rec == ndJsonDeserialize(IOEnv.TRACE)
 VARIABLES l, done
 Init == l \in 1..Len(Rec) /\ done = 0
 Once == done = 0 /\ done' = 1 /\ l' = l
+\* the driver process was killed by the scenario (abort, stack overflow) or made no progress (hang)
+Died(e) == e.k \in {"hang", "abort"}
 Report(tag, why) == PrintT("@@" \o tag \o "|" \o ToString(l) \o "|" \o why)
 Note(tag, what) == PrintT("@@" \o tag \o "|" \o ToString(l) \o "|" \o what)
 
@@ -37,7 +39,7 @@ C05Why(e) ==
 C05(e) == LET w == C05Why(e) IN
           /\ Note("FACT", IF w = "-" THEN "skipped" ELSE IF WellFormed(e.pkt) /\ ~PointerFreePkt(e.pkt) THEN "compressed" ELSE "pointer-free")
           /\ (IF w \in {"", "-"} THEN TRUE ELSE Report("VIOLATION-C05", w))
-NextC05 == Once /\ C05(Rec[l])
+NextC05 == Once /\ (IF Died(Rec[l]) THEN Report("VIOLATION-C05", "the library " \o Rec[l].k \o "s") ELSE C05(Rec[l]))
 
 ----------------------------------------------------------------------------
 (* C06 *)
@@ -55,7 +57,7 @@ C06Why(e) ==
 C06(e) == LET w == C06Why(e) IN
           /\ Note("FACT", IF w = "-" THEN "skipped" ELSE IF w = "" /\ Len(e.out.b) < Len(e.pkt) THEN "shrunk" ELSE "same-size")
           /\ (IF w \in {"", "-"} THEN TRUE ELSE Report("VIOLATION-C06", w))
-NextC06 == Once /\ C06(Rec[l])
+NextC06 == Once /\ (IF Died(Rec[l]) THEN Report("VIOLATION-C06", "the library " \o Rec[l].k \o "s") ELSE C06(Rec[l]))
 
 ----------------------------------------------------------------------------
 (* C07 *)
@@ -71,5 +73,5 @@ C07Fact(e) ==
 C07(e) == LET w == C07Why(e) IN
           /\ Note("FACT", IF w = "-" THEN "skipped" ELSE C07Fact(e))
           /\ (IF w \in {"", "-"} THEN TRUE ELSE Report("VIOLATION-C07", w))
-NextC07 == Once /\ C07(Rec[l])
+NextC07 == Once /\ (IF Died(Rec[l]) THEN Report("VIOLATION-C07", "the library " \o Rec[l].k \o "s") ELSE C07(Rec[l]))
 ====
